@@ -70,6 +70,30 @@ def gen_scenario(rng: random.Random, focus: str = "any") -> dict:
             tcl.append(["delay", rng.choice([0.0, 0.5, 1.5, 4.0])])
             tcl.append(c)
         sc["client"] = tcl
+    if focus == "C08":
+        # timed runs over step durations x logging intervals x scales x limits x pause scripts
+        sc["timed"] = True
+        sc["faults"] = []
+        sc["pause_timeout"] = 20.0
+        step = rng.choice([0.25, 0.5, 1.0, 2.0])
+        sc["durations"] = {"step": step, "train": rng.choice([0.0, 0.5, 1.5])}
+        sc["log_interval"] = rng.choice([0.0, 0.1, step * 0.5, step * 1.5, step * 3.0, 60.0])
+        sc["time_scale"] = rng.choice([0.5, 1.0, 2.0, 4.0])
+        cl = []
+        for _ in range(rng.randint(0, 3)):
+            cl.append(["delay", rng.choice([0.5, 1.5, 3.0])])
+            cl.append(rng.choice([["POST", "/api/pause"], ["POST", "/api/resume"], ["POST", "/api/resume"],
+                                  ["GET", "/api/status"]]))
+        if rng.random() < 0.6:
+            sc["max_uptime"] = rng.choice([2.0, 5.0, 12.0])
+            cl += [["delay", 3.0], ["POST", "/api/resume"]]
+        else:
+            cl += [["delay", rng.choice([1.0, 6.0])], ["POST!", "/api/shutdown"]]
+        sc["client"] = cl
+        sc["save_condition"] = []
+        if rng.random() < 0.3:
+            sc["keeper_max_keep"] = rng.choice([0, 1, 2])
+            sc["save_condition"] = [False] * rng.randint(2, 8) + [True, False, False, True]
     if focus == "C02" and rng.random() < 0.15:
         sc["interrupt_at"] = rng.randint(5, 120)
     if focus == "C02" and rng.random() < 0.15 and sc["timed"]:
